@@ -147,3 +147,27 @@ def robust(mk, witness, *args):
                     observed="a wrong answer when evaluated after the earlier cases of this run (" + why + ")",
                     note="state kept between independent evaluations (cache / memo / shared default); replay the whole check to reproduce")
     return f
+
+
+SHRINK_BUDGET_S = float(os.environ.get("VERIF_SHRINK_BUDGET", "90"))
+
+
+def shrink_within_budget(fails, make, witness_of):
+    """make(item) -> Failure|None for every failing item of a shard, until SHRINK_BUDGET_S seconds have been spent
+    (and at least one failure is documented).  What is left is reported as ONE further, unminimised violation - a
+    failing case is never dropped, but a change that breaks thousands of cases must not cost hours of shrinking."""
+    import time
+
+    t0 = time.monotonic()
+    out = []
+    for i, item in enumerate(fails):
+        if out and time.monotonic() - t0 > SHRINK_BUDGET_S:
+            rest = len(fails) - i
+            out.append(Failure("not-minimised", witness_of(item), expected="agreement with the oracle",
+                               observed="%d further failing cases of this shard (this is the first of them)" % rest,
+                               note="shrink budget of %gs per shard used up; set VERIF_SHRINK_BUDGET to change it" % SHRINK_BUDGET_S))
+            break
+        f = make(item)
+        if f is not None:
+            out.append(f)
+    return out
